@@ -855,11 +855,12 @@ func (a AssignInstr) Execute(env *Zlisp) error {
 	}
 	switch x := lhs.(type) {
 	case *SexpSymbol:
-		return env.LexicalBindSymbol(x, rhs)
+		err = env.LexicalBindSymbol(x, rhs)
+		return a.leaveValue(env, rhs, err)
 	case Selector:
 		Q("AssignInstr: I see lhs is Selector")
 		err := x.AssignToSelection(env, rhs)
-		return err
+		return a.leaveValue(env, rhs, err)
 	case *SexpArray:
 		switch rhsArray := rhs.(type) {
 		case *SexpArray:
@@ -882,13 +883,25 @@ func (a AssignInstr) Execute(env *Zlisp) error {
 						" we found %T", i, x.Val[i])
 				}
 			}
-			return nil
+			return a.leaveValue(env, rhs, nil)
 		default:
 			return fmt.Errorf("AssignInstr: don't know how to assign rhs %T `%v` to lhs %T `%v`",
 				rhs, rhs.SexpString(nil), lhs, lhs.SexpString(nil))
 		}
 	}
 	return fmt.Errorf("AssignInstr: don't know how to assign to lhs %T", lhs)
+}
+
+// leaveValue makes the assignment an expression, as def and set are: a
+// successful assignment leaves the assigned value on the data stack. (It
+// used to leave nothing, so (list 1 (set (arrayidx a [0]) 5)) let the
+// enclosing call take an operand that was not there.)
+func (a AssignInstr) leaveValue(env *Zlisp, rhs Sexp, err error) error {
+	if err != nil {
+		return err
+	}
+	env.datastack.PushExpr(rhs)
+	return nil
 }
 
 // PopScopeTransferToDataStackInstr is used to wrap up a package
